@@ -417,6 +417,10 @@ func c42Run(r *vkit.Run, x *c42World, wi int, q c42Query, phase string, reported
 		for k, v := range feats {
 			f[k] = v
 		}
+		r.Event("violations_"+class+"_"+f["api"]+"_"+f["auth"]+"_"+f["cause"]+f["level"], 1)
+		if oc := os.Getenv("C42_CLASS"); oc != "" && !strings.Contains(oc, class) { // debugging aid
+			return
+		}
 		r.Violation(class, f, c42Wit{World: wi, Setup: x.log, Query: q.String(), What: what, Got: got, Want: want, Detail: detail})
 	}
 	// scope and the series classes
@@ -488,15 +492,14 @@ func c42Run(r *vkit.Run, x *c42World, wi int, q c42Query, phase string, reported
 			return "open_authorizer_lists_index_entry_without_series"
 		}
 		if key != "" {
-			vals := []string{val}
-			if val == "" {
-				vals = w.Vals[key]
-			}
-			for _, v := range vals {
-				ss, _ := env.SeriesKeys(auth, ids, c17Cmp(key, "=", v).Influx())
-				for _, skey := range ss {
-					if !live[skey] {
-						return "dropped_series_still_reachable_by_tag_value"
+			// the stale lookup may go through any tag the condition mentions: probe them all
+			for _, k := range w.Keys {
+				for _, v := range w.Vals[k] {
+					ss, _ := env.SeriesKeys(auth, ids, c17Cmp(k, "=", v).Influx())
+					for _, skey := range ss {
+						if !live[skey] {
+							return "dropped_series_still_reachable_by_tag_value"
+						}
 					}
 				}
 			}
@@ -541,23 +544,36 @@ func c42Run(r *vkit.Run, x *c42World, wi int, q c42Query, phase string, reported
 		for _, n := range got {
 			gs[n] = true
 			if !may[n] {
-				// whose series could have made the name match? a hidden or a deleted series of the
-				// measurement that satisfies the condition, else a visible live one that does not
-				sat := func(s c17Series) bool {
-					return s.Meas == n && (q.MeasCond == nil || q.MeasCond.Eval(s.Meas, s.Tags, ""))
+				// whose series could have made the name match under some reading of the condition?
+				// add the caller-visible deleted series, then the hidden ones, to the series sets
+				withDead, withAll := map[string][]c17Series{}, map[string][]c17Series{}
+				for m, ss := range liveVis {
+					withDead[m] = append(withDead[m], ss...)
+					withAll[m] = append(withAll[m], ss...)
 				}
-				class, cause := blame(sat)
-				if class == "unexplained_name_returned" {
-					if _, ok := liveVis[n]; ok {
-						class = "name_not_matching_condition_returned"
-					} else {
-						class, cause = blame(func(s c17Series) bool { return s.Meas == n })
+				for _, s := range dead {
+					if vis(s) {
+						withDead[s.Meas] = append(withDead[s.Meas], s)
 					}
+					withAll[s.Meas] = append(withAll[s.Meas], s)
 				}
-				if class == "deleted_series_name_returned" {
-					cause = "unknown"
+				for _, s := range hiddenLive {
+					withAll[s.Meas] = append(withAll[s.Meas], s)
+				}
+				_, mayDead := measBounds(q.MeasCond, withDead)
+				_, mayAll := measBounds(q.MeasCond, withAll)
+				class, cause := "unexplained_name_returned", ""
+				switch {
+				case mayDead[n]:
+					class, cause = "deleted_series_name_returned", "unknown"
 					if q.Auth == nil {
 						cause = "open_authorizer_lists_index_entry_without_series"
+					}
+				case mayAll[n]:
+					class, cause = "hidden_series_name_returned", "series_hidden_by_authorizer"
+				default:
+					if _, ok := liveVis[n]; ok {
+						class = "name_not_matching_condition_returned"
 					}
 				}
 				report(class, cause, fmt.Sprintf("measurement %q is listed", n), got, c17SortedKeys(may))
@@ -658,16 +674,18 @@ func c42Run(r *vkit.Run, x *c42World, wi int, q c42Query, phase string, reported
 		for _, e := range extra {
 			p := strings.Split(e, "\x00")
 			carries := func(s c17Series) bool {
-				if s.Meas != p[0] {
+				if s.Meas != p[0] || !nameOK(s.Meas) || (q.Filter != nil && !q.Filter.Eval(s.Meas, s.Tags, "")) {
 					return false
 				}
 				v, ok := s.Tags[p[1]]
-				return ok && (len(p) == 2 || v == p[2])
+				return ok && keyOK(p[1]) && (len(p) == 2 || v == p[2])
 			}
 			class, cause := blame(carries)
-			for _, s := range liveVis[p[0]] {
-				if carries(s) { // a visible live series carries it: then the condition excluded it
-					class, cause = "name_not_matching_condition_returned", ""
+			if class == "unexplained_name_returned" {
+				for _, s := range w.Series {
+					if v, ok := s.Tags[p[1]]; s.Meas == p[0] && ok && (len(p) == 2 || v == p[2]) {
+						class = "name_not_matching_condition_returned" // carried, but by no series satisfying the condition
+					}
 				}
 			}
 			if class == "deleted_series_name_returned" {
